@@ -173,6 +173,10 @@ def _run_job(job):
     spec = U.build_type(T) if guided else None
     st = _STREAMS[sid]
     ev, detail, mech = S.run_schedule(STREAMING[rules], data, spec, refs, st.matcher(), kind, parts, cwl, idle)
+    if '_Timeout' in [str(d) for d in detail]:
+        # a poll cannot be repeated, the whole schedule can: a time-out counts only when the fresh run has one too
+        spec = U.build_type(T) if guided else None
+        ev, detail, mech = S.run_schedule(STREAMING[rules], data, spec, refs, st.matcher(), kind, parts, cwl, idle)
     return ev, detail, mech
 
 
@@ -338,7 +342,12 @@ def _run_k2_job(job):
     sid, rules, data, T, guided, refs, nones = job
     spec = U.build_type(T) if guided else None
     st = _STREAMS[sid]
-    return S.run_k2(STREAMING[rules], data, spec, refs, st.matcher(), nones)
+    ev, detail = S.run_k2(STREAMING[rules], data, spec, refs, st.matcher(), nones)
+    if '_Timeout' in [str(d) for d in detail]:
+        # as above: only a time-out that repeats on a fresh run of the same schedule counts
+        spec = U.build_type(T) if guided else None
+        ev, detail = S.run_k2(STREAMING[rules], data, spec, refs, st.matcher(), nones)
+    return ev, detail
 
 
 def none_patterns(max_reads, limit):
